@@ -73,6 +73,17 @@ def _check(job):
         rep["observed"] = text
         for msg in msgs[:3]:
             divs.append(("table:%s" % kind, "%s: %s" % (" ".join(argv[2:]), msg), rep))
+    for mt in obj.get("multi", []):
+        argv = list(paths) + ["-m", obj["metric"], "-x", obj["axis"], "-type", "csv", "-r", ",".join(str(t) for t in mt["r"]), "-b", mt["bt"]]
+        rep = {"kind": "table", "argv": argv, "files": [open(p).read() for p in paths], "expected": mt["table"], "type": "csv", "axis": obj["axis"]}
+        status, text = run_verif(argv)
+        n += 1
+        if status != "ok":
+            divs.append((status.split(" ")[0] if status.startswith("exception") else "table:" + status, "%s -> %s" % (" ".join(argv[2:]), status), rep))
+            continue
+        header, rows = table.parse(text, "csv")
+        for msg in table.compare(mt["table"], [os.path.basename(p) for p in paths], header, rows, 6, obj["axis"])[:3]:
+            divs.append(("table:averaged-events", "%s: %s" % (" ".join(argv[2:]), msg), rep))
     return n, divs
 
 
